@@ -375,6 +375,8 @@ where
                     _ => false,
                 };
                 o.put(|| key.clone(), || crate::common::show_val(&prim_to_val_hashed(&p, &r)));
+                // the text decoders (PDFDocEncoding / UTF-16BE with byte order mark / UTF-8) on every string of the object
+                text_of_strings(&key, &p, o, 0);
                 if is_stream {
                     match Stream::<()>::from_primitive(p, &r) {
                         Ok(s) => match s.data(&r) {
@@ -429,6 +431,37 @@ where
 }
 
 /// like prim_to_val but stream data replaced by its length+hash (keeps observations small)
+fn text_of_strings(key: &str, p: &Primitive, o: &mut Obs, depth: usize) {
+    if depth > 6 {
+        return;
+    }
+    match p {
+        Primitive::String(s) => {
+            let lossy = s.to_string_lossy();
+            match s.to_string() {
+                Ok(t) => o.put(|| format!("{}.text", key), || format!("{:?} / {:?}", t, lossy)),
+                Err(e) => o.err(|| format!("{}.text", key), &e),
+            }
+        }
+        Primitive::Array(a) => {
+            for x in a.iter().take(64) {
+                text_of_strings(key, x, o, depth + 1);
+            }
+        }
+        Primitive::Dictionary(d) => {
+            for (_, v) in d.iter().take(64) {
+                text_of_strings(key, v, o, depth + 1);
+            }
+        }
+        Primitive::Stream(s) => {
+            for (_, v) in s.info.iter().take(64) {
+                text_of_strings(key, v, o, depth + 1);
+            }
+        }
+        _ => {}
+    }
+}
+
 pub fn prim_to_val_hashed(p: &Primitive, r: &impl Resolve) -> crate::pdfgen::val::Val {
     use crate::pdfgen::val::Val;
     match prim_to_val(p, r) {
